@@ -488,3 +488,28 @@ func init() {
 		}
 	}
 }
+
+// C05: the csv parser treats the header line of a second file as a record.
+func init() {
+	specialReplays["mapr/logformat.(*csvParser).MakeFields#post:header-line-is-no-record"] = func(P *Program, v *ObligResult) (string, string, bool, error) {
+		fn := fnOfObligation(P, v.Name)
+		g := &goGen{P: P, model: v.Model, pkg: fn.Pkg.Pkg, imports: map[string]bool{"testing": true, "fmt": true}}
+		body := `p, err := newCSVParser("host", "UTC", 0)
+		if err != nil {
+			t.Skip(err)
+		}
+		// file one
+		p.MakeFields("name,value")
+		if _, err := p.MakeFields("a,1"); err != nil {
+			t.Skip(err)
+		}
+		// file two of the same session starts with its own header line
+		fields, err := p.MakeFields("name,value")
+		if err == nil {
+			panic(fmt.Sprintf("the header line of the second csv file is aggregated as a record: %v", fields))
+		}`
+		src := g.testFile(fn.Pkg.Pkg, body)
+		out, ok, err := runOverlayTest(P, fn.Pkg.Pkg, src)
+		return src, out, ok, err
+	}
+}
